@@ -149,6 +149,7 @@ qvector_t *qvector(size_t max, size_t objsize, int options) {
     if (options & QVECTOR_THREADSAFE) {
         Q_MUTEX_NEW(vector->qmutex, true);
         if (vector->qmutex == NULL) {
+            free(vector->data);
             free(vector);
             errno = ENOMEM;
             return NULL;
